@@ -18,9 +18,9 @@ theorem tmod_zero_iff (x k : Int) : x.tmod k = 0 ↔ x % k = 0 := by
 theorem wrapU128_small {x : Nat} (h : x < U128_MOD) : wrapU128 x = x := by
   unfold wrapU128 U128_MOD at *; exact Nat.mod_eq_of_lt h
 
-/-- `round_quot` on the floor quotient/remainder of `n / d`, `0 < d < 2^127`, is the spec rounding
+/-- `round_quot` on the floor quotient/remainder of `n / d`, `0 < d ≤ 2^127` (`2^127 = |i128::MIN|` included), is the spec rounding
     (as far as the i128 range allows: `checked_add(1)`) -/
-theorem roundQuot_spec (tm m : Mode) (n d : Int) (hd : 0 < d) (hdu : d ≤ I128_MAX)
+theorem roundQuot_spec (tm m : Mode) (n d : Int) (hd : 0 < d) (hdu : d ≤ I128_MAX + 1)
     (hq : fitsI128 (n / d) = true) :
     roundQuot tm (n / d) (n % d).toNat d.toNat (some m) = checkedI128 (Spec.specRound m n d) := by
   have h1 := Int.emod_nonneg n (Int.ne_of_gt hd)
@@ -150,6 +150,58 @@ theorem i128DivModFloor_neg (prof : Profile) (x y : Int) (hx : I128_MIN < x ∧ 
     injection hpos with hq1 hr1
     rw [hq1, hr1]
 
+/-- `i128_div_mod_floor(x, i128::MIN)`: the quotient is `-1` for a positive and `0` for a non-positive dividend -/
+theorem i128DivModFloor_min (prof : Profile) (x : Int) (hx : I128_MIN < x ∧ x ≤ I128_MAX) :
+    i128DivModFloor prof x I128_MIN =
+      .ok ((-x) / 170141183460469231731687303715884105728, -((-x) % 170141183460469231731687303715884105728)) := by
+  unfold I128_MIN I128_MAX at hx
+  have hD : (0 : Int) < 170141183460469231731687303715884105728 := by decide
+  have e0 : I128_MIN = -170141183460469231731687303715884105728 := rfl
+  have hq : x.tdiv I128_MIN = 0 := by
+    rw [e0, Int.tdiv_neg]
+    by_cases h0 : 0 ≤ x
+    · rw [Int.tdiv_eq_zero_of_lt h0 (by omega)]; rfl
+    · have : x = -(-x) := by omega
+      rw [this, Int.neg_tdiv, Int.tdiv_eq_zero_of_lt (by omega) (by omega)]; rfl
+  have hr : x.tmod I128_MIN = x := by
+    rw [e0, Int.tmod_neg]
+    by_cases h0 : 0 ≤ x
+    · exact Int.tmod_eq_of_lt h0 (by omega)
+    · have : x = -(-x) := by omega
+      rw [this, Int.neg_tmod, Int.tmod_eq_of_lt (by omega) (by omega)]
+  have hne : I128_MIN ≠ 0 := by decide
+  have hm1 : ¬ (x = I128_MIN ∧ I128_MIN = -1) := by intro h; exact absurd h.2 (by decide)
+  unfold i128DivModFloor divI128 remI128
+  simp only [hne, if_false, hm1, Outcome.bind_ok, hq, hr]
+  have hneg : I128_MIN < 0 := by decide
+  by_cases hp : x > 0
+  · have hc : (x > 0 ∧ I128_MIN < 0) ∨ (x < 0 ∧ I128_MIN > 0) := Or.inl ⟨hp, hneg⟩
+    simp only [hc, if_true]
+    have f1 : fitsI128 ((0 : Int) - 1) = true := by decide
+    have f2 : fitsI128 (x + I128_MIN) = true := by rw [fitsI128_iff]; unfold I128_MIN I128_MAX; omega
+    rw [plainI128_ok prof f1, Outcome.bind_ok, plainI128_ok prof f2, Outcome.bind_ok, Outcome.pure_eq, e0]
+    congr 2
+    · omega
+    · omega
+  · have hc : ¬ ((x > 0 ∧ I128_MIN < 0) ∨ (x < 0 ∧ I128_MIN > 0)) := by
+      intro h; rcases h with h | h
+      · exact hp h.1
+      · exact absurd h.2 (by decide)
+    simp only [hc, if_false, Outcome.pure_eq]
+    congr 2
+    · omega
+    · omega
+
+/-- floor division by any negative divisor, `i128::MIN` included -/
+theorem i128DivModFloor_neg' (prof : Profile) (x y : Int) (hx : I128_MIN < x ∧ x ≤ I128_MAX) (hy0 : y < 0)
+    (hy : I128_MIN ≤ y) : i128DivModFloor prof x y = .ok ((-x) / (-y), -((-x) % (-y))) := by
+  by_cases h : y = I128_MIN
+  · subst h
+    have e : -I128_MIN = 170141183460469231731687303715884105728 := by decide
+    rw [e]
+    exact i128DivModFloor_min prof x hx
+  · exact i128DivModFloor_neg prof x y hx hy0 (by omega)
+
 theorem roundQuot_none (tm : Mode) (q : Int) (r d : Nat) :
     roundQuot tm q r d none = roundQuot tm q r d (some tm) := by
   unfold roundQuot; rfl
@@ -225,11 +277,11 @@ theorem divRoundedTail (prof : Profile) (tm : Mode) (mode : Option Mode) (n d : 
   cases mode with
   | none =>
     have hsf' : fitsI128 (Spec.specRound tm n d) = true := hsf
-    rw [roundQuot_none, roundQuot_spec tm tm n d hd hdu hqf, checkedI128_some hsf']
+    rw [roundQuot_none, roundQuot_spec tm tm n d hd (by omega) hqf, checkedI128_some hsf']
     rfl
   | some m =>
     have hsf' : fitsI128 (Spec.specRound m n d) = true := hsf
-    rw [roundQuot_spec tm m n d hd hdu hqf, checkedI128_some hsf']
+    rw [roundQuot_spec tm m n d hd (by omega) hqf, checkedI128_some hsf']
     rfl
 
 /-- `i128_div_rounded(n, d, mode)` for a positive divisor: any i128 dividend (including `i128::MIN`) -/
@@ -240,12 +292,47 @@ theorem i128DivRounded_pos (prof : Profile) (tm : Mode) (mode : Option Mode) (n 
   unfold i128DivRounded
   exact divRoundedTail prof tm mode n d hn hd hdu
 
-/-- `i128_div_rounded(n, d, mode)` is the spec rounding of `n/d` for every non-zero divisor, every mode,
+/-- `i128_div_rounded(n, d, mode)` is the spec rounding of `n/d` for every non-zero divisor — **including `i128::MIN`** —, every mode,
     every profile; it never panics on in-range operands (after the D13 repair no operand is negated: the floor division by the
     signed divisor leaves a remainder with the divisor's sign, and `|rem| / |divisor|` is the fraction cut off) -/
+theorem i128DivRounded_min (prof : Profile) (tm : Mode) (mode : Option Mode) (n : Int)
+    (hn : I128_MIN < n ∧ n ≤ I128_MAX) :
+    i128DivRounded prof tm n I128_MIN mode = .ok (Spec.specRoundQ (mode.getD tm) n I128_MIN) := by
+  have hD : (0 : Int) < 170141183460469231731687303715884105728 := by decide
+  have hneg : I128_MIN < 0 := by decide
+  have e0 : -I128_MIN = 170141183460469231731687303715884105728 := by decide
+  unfold Spec.specRoundQ
+  rw [if_pos hneg, e0]
+  unfold i128DivRounded
+  rw [i128DivModFloor_min prof n hn]
+  simp only [Outcome.bind_ok]
+  have ea : (-(-n % 170141183460469231731687303715884105728)).natAbs = (-n % 170141183460469231731687303715884105728).toNat := by
+    have h1 := Int.emod_nonneg (-n) (Int.ne_of_gt hD); omega
+  have eb : I128_MIN.natAbs = (170141183460469231731687303715884105728 : Int).toNat := by decide
+  rw [ea, eb]
+  unfold I128_MIN I128_MAX at hn
+  have hqf : fitsI128 (-n / 170141183460469231731687303715884105728) = true := by
+    rw [fitsI128_iff]; unfold I128_MIN I128_MAX; omega
+  have hsf : ∀ m : Mode, fitsI128 (Spec.specRound m (-n) 170141183460469231731687303715884105728) = true := by
+    intro m
+    rw [fitsI128_iff]; unfold I128_MIN I128_MAX
+    unfold Spec.specRound
+    simp only []
+    cases m <;> simp only [] <;> (repeat' split) <;> omega
+  cases mode with
+  | none =>
+    rw [roundQuot_none, roundQuot_spec tm tm (-n) _ hD (by unfold I128_MAX; omega) hqf, checkedI128_some (hsf tm)]
+    rfl
+  | some m =>
+    rw [roundQuot_spec tm m (-n) _ hD (by unfold I128_MAX; omega) hqf, checkedI128_some (hsf m)]
+    rfl
+
 theorem i128DivRounded_spec (prof : Profile) (tm : Mode) (mode : Option Mode) (n d : Int)
-    (hn : I128_MIN < n ∧ n ≤ I128_MAX) (hd : I128_MIN < d ∧ d ≤ I128_MAX) (hd0 : d ≠ 0) :
+    (hn : I128_MIN < n ∧ n ≤ I128_MAX) (hd : I128_MIN ≤ d ∧ d ≤ I128_MAX) (hd0 : d ≠ 0) :
     i128DivRounded prof tm n d mode = .ok (Spec.specRoundQ (mode.getD tm) n d) := by
+  by_cases hmin : d = I128_MIN
+  · subst hmin; exact i128DivRounded_min prof tm mode n hn
+  have hd : I128_MIN < d ∧ d ≤ I128_MAX := ⟨by omega, hd.2⟩
   unfold Spec.specRoundQ
   by_cases hneg : d < 0
   · rw [if_pos hneg]
